@@ -68,10 +68,10 @@ class Ctx:
     def known_match(self, pid, violation):
         return match_known(pid, violation, self.known)
 
-    def world(self):
+    def world(self, dotted=False):
         from .world import World
         self.seq += 1
-        return World(self.snap, self.clock, self.ref, "w%d" % self.seq)
+        return World(self.snap, self.clock, self.ref, ("w%d.v2" if dotted else "w%d") % self.seq)
 
 
 _CTX = None
@@ -89,8 +89,10 @@ def run_spec(pid, spec):
     prop = load_prop(pid)
     c = ctx()
     proc.OPTIMIZE = int((spec.get("cfg") or {}).get("optimize") or 0)
-    w = c.world()
+    w = c.world(dotted=bool((spec.get("cfg") or {}).get("cwd_dot")))
     try:
+        if (spec.get("cfg") or {}).get("cwd_dot"):
+            w.fired("dot-in-working-directory-path")
         if proc.OPTIMIZE:
             w.fired("python-OO")
         spare = (spec.get("cfg") or {}).get("fd_spare")
@@ -129,6 +131,10 @@ def _worker_chunk(pid, base_seed, tier, indices, keep_specs):
             else:
                 seed = splitmix(base_seed, pid, idx)
                 spec = prop.gen(random.Random(seed), tier, c)
+                if (seed >> 15) % 8 == 0:
+                    # the working directory's path has a dot in it (john.doe, boards.v2)
+                    spec.setdefault("cfg", {})
+                    spec["cfg"] = dict(spec["cfg"], cwd_dot=True)
                 if (seed >> 9) % 25 == 0:
                     # the deployment runs the tool as `python -OO` (asserts stripped, __debug__ false)
                     spec.setdefault("cfg", {})
